@@ -17,6 +17,7 @@ from glotaran.parameter.parameter import PARAMETER_EXPRESSION_REGEX
 from glotaran.parameter.parameter import Parameter
 from glotaran.utils.ipython import MarkdownStr
 from glotaran.utils.sanitize import pretty_format_numerical
+from glotaran.utils.sanitize import sanitize_parameter_list
 
 if TYPE_CHECKING:
     from glotaran.parameter.parameter_history import ParameterHistory
@@ -76,8 +77,8 @@ class Parameters:
         parameters = {}
 
         for i, item in enumerate(item for item in parameter_list if not isinstance(item, dict)):
-            if not isinstance(item, list):
-                item = [item]
+            # Scientific notation strings are values, thus they don't count as label
+            item = sanitize_parameter_list(item.copy() if isinstance(item, list) else [item])
             if not any(isinstance(v, str) for v in item):
                 item += [f"{i+1}"]
             parameter = Parameter.from_list(item, default_options=defaults)
@@ -500,8 +501,11 @@ def flatten_parameter_dict(
             ):
                 if not isinstance(list_value, list):
                     list_value = [str(index), list_value]
-                elif not any(isinstance(v, str) for v in list_value):
-                    list_value += [str(index)]
+                else:
+                    # Scientific notation strings are values, thus they don't count as label
+                    list_value = sanitize_parameter_list(list_value.copy())
+                    if not any(isinstance(v, str) for v in list_value):
+                        list_value += [str(index)]
                 yield key, list_value, sub_dict
 
 
